@@ -783,7 +783,26 @@ func (ke *KindEngine) eval(v ssa.Value) *AV {
 				// shift count does not contribute
 				return scalarAV(sa)
 			}
-			return scalarAV(arithOp(x.Op, sa, sb))
+			out := arithOp(x.Op, sa, sb)
+			// an altitude-scale value plus/minus a quantity read from memory whose kind is not
+			// known (a table of per-stage origins, a field of a step record) may be the
+			// change of origin between the key scale and the index scale: either kind
+			if (x.Op == token.ADD || x.Op == token.SUB) && (out.has(kTZ) || out.has(kF)) {
+				for _, side := range []struct {
+					v ssa.Value
+					k KindSet
+				}{{x.X, sa}, {x.Y, sb}} {
+					if side.k != 0 {
+						continue
+					}
+					if u, isLoad := stripConv(side.v).(*ssa.UnOp); isLoad && u.Op == token.MUL {
+						if _, isAlloc := u.X.(*ssa.Alloc); !isAlloc {
+							out |= ks(kTZ, kF)
+						}
+					}
+				}
+			}
+			return scalarAV(out)
 		}
 		return nil
 	case *ssa.Field:
